@@ -39,7 +39,7 @@ TRUSTED = c08.TRUSTED + [
 ASSUMPTIONS = ["tasks are deterministic; one process, debug worker, no concurrent writers (C10-C12 cover those)"]
 RULE = ("pairs of tasks (python.define / shell.define) differing in exactly one aspect: function source, closure value, "
         "module global, default argument, argstr, position, sep, formatter, executable, input value / Python type / "
-        "nesting / array shape / array dtype (+ identical-twin controls); histories of 2-6 submissions over {A, B} into "
+        "nesting / array shape / array dtype / one element of a large array (+ identical-twin controls); histories of 2-6 submissions over {A, B} into "
         "one cache_root, each compared with a fresh run in its own root; distinct = distinct (aspect, parameters, "
         "history); non-trivial = the history submits both tasks")
 IMPORTS = ["Base.PySort", "Model.Hash", "Spec.Hash"]
@@ -108,7 +108,7 @@ def f(x):
 '''
 
 
-ASPECTS = ["closure", "argstr", "value", "source", "global", "position", "type", "default", "sep", "nesting",
+ASPECTS = ["array_tail", "closure", "argstr", "value", "source", "global", "position", "type", "default", "sep", "nesting",
            "formatter", "shape", "executable", "dtype", "twin", "shell_value"]
 
 
@@ -135,6 +135,12 @@ def gen_pair(rng, mods, aspect):
         a = mods.make("def f(x, y=%d):\n    return x + y\n" % k1)
         b = mods.make("def f(x, y=%d):\n    return x + y\n" % k2)
         return aspect, [k1, k2, x], lambda: python.define(a.f)(x=x), lambda: python.define(b.f)(x=x)
+    if aspect == "array_tail":
+        # large arrays (byte size around multiples of 8192) that differ in one element only
+        m = mods.make("def f(x):\n    return (str(x.dtype), x.shape, float(x.sum()), x.ravel()[-2:].tolist(), x.ravel()[:2].tolist())\n")
+        where, t1, t2 = hg.nd_big_pair(rng, hg.Ids(), rng.randrange(1000) * 2)   # even k: bare arrays
+        return aspect, [where, t1[3], t1[4]], (lambda: python.define(m.f)(x=hm.build(t1))), \
+            (lambda: python.define(m.f)(x=hm.build(t2)))
     word = rng.choice(["x", "y", "zz", "w1"])
     if aspect == "argstr":
         f1, f2 = rng.sample(["-a", "-b", "--c", "-d"], 2)
